@@ -4,6 +4,7 @@
 package trie
 
 import (
+	"bytes"
 	"encoding/binary"
 	"encoding/hex"
 	"fmt"
@@ -228,6 +229,21 @@ func interp(toks []string) string {
 		} else if optCopy != optString(opts) {
 			lastInputsCheck = "OPT-MODIFIED"
 		}
+		// The caller owns its inputs again: overwrite every byte-slice value and flip the option
+		// bools.  A trie that kept a reference instead of a copy answers differently from now on — in
+		// every property's script, not only C20's (the oracle works from the script's own bytes).
+		if bs, ok := tv.([][]byte); ok {
+			for i, b := range bs {
+				scribble(b, fmt.Sprint(i%3))
+			}
+		}
+		for i := range opts {
+			for _, p := range []*bool{opts[i].DedupValue, opts[i].InnerPrefix, opts[i].LeafPrefix, opts[i].Complete} {
+				if p != nil {
+					*p = !*p
+				}
+			}
+		}
 		if err != nil {
 			if st != nil {
 				return "err-with-trie"
@@ -315,6 +331,44 @@ func interp(toks []string) string {
 		ans := fmt.Sprintf("ok %d %s", len(b), Fnv64(b))
 		scribble(b, toks[1])
 		return ans
+	case "trie.marshal-twice":
+		// two results of Marshal are alive at once: neither call may change the other's bytes (C20)
+		b1, err := s.St.Marshal()
+		if err != nil {
+			return ErrKind(err)
+		}
+		c1 := append([]byte{}, b1...)
+		b2, err := s.St.Marshal()
+		if err != nil {
+			return ErrKind(err)
+		}
+		if !bytes.Equal(b1, c1) {
+			return "FIRST-OUTPUT-CHANGED-BY-SECOND-MARSHAL"
+		}
+		scribble(b1, "2")
+		if !bytes.Equal(b2, c1) {
+			return "OUTPUTS-SHARE-MEMORY"
+		}
+		if b3, err := s.St.Marshal(); err != nil || !bytes.Equal(b3, c1) {
+			return "MARSHAL-CHANGED-AFTER-SCRIBBLE"
+		}
+		return fmt.Sprintf("ok %d %s", len(c1), Fnv64(c1))
+	case "trie.marshal-hold":
+		// keep a result of Marshal (and a private copy) across later operations
+		b, err := s.St.Marshal()
+		if err != nil {
+			return ErrKind(err)
+		}
+		heldOut, heldCopy = b, append([]byte{}, b...)
+		return fmt.Sprintf("ok %d %s", len(b), Fnv64(b))
+	case "trie.marshal-held-check":
+		if heldOut == nil {
+			return "nothing-held"
+		}
+		if !bytes.Equal(heldOut, heldCopy) {
+			return "HELD-OUTPUT-CHANGED"
+		}
+		return "held-unchanged"
 	case "trie.new-checked":
 		// like trie.new, but keeps deep copies of the caller's keys, values and
 		// option struct (pointer targets included) and compares them afterwards (C20)
@@ -395,6 +449,8 @@ func interp(toks []string) string {
 }
 
 var lastInputsCheck = "inputs-unchanged"
+
+var heldOut, heldCopy []byte
 
 func optString(opts []slim.Opt) string {
 	if len(opts) == 0 {
